@@ -88,7 +88,7 @@ Qed.
 Lemma reply_calls_only : forall c ok s, reply c ok s = set_calls (calls (reply c ok s)) s.
 Proof.
   intros. unfold reply. destruct (nth_error (calls s) c); [|destruct s; reflexivity].
-  destruct (k_ph c0) as [| | |[rp|]| | |]; destruct s; reflexivity.
+  destruct (k_ph c0) as [| | | |[rp|]| | |]; destruct s; reflexivity.
 Qed.
 Lemma reply_all_calls_only : forall cs ok s, reply_all cs ok s = set_calls (calls (reply_all cs ok s)) s.
 Proof.
